@@ -89,6 +89,10 @@ type simSource struct {
 	reads       int
 	delivered   int
 	onFirstRead func() // run once, before the first Read looks at the queue
+	// onFilter runs at the start of the n-th SetPacketFilter call; drainOnFilter models the drain of the real source
+	onFilter      func(n int)
+	drainOnFilter bool
+	drained       int
 }
 
 func newSimSource(faults *faultPlan) *simSource {
@@ -240,7 +244,22 @@ func (s *simSource) SetPacketFilter(spec packets.PacketFilterSpec) error {
 		s.useAfter++
 	}
 	s.filterSpecs = append(s.filterSpecs, spec)
+	nth, cbf := len(s.filterSpecs), s.onFilter
 	s.mu.Unlock()
+	if cbf != nil {
+		cbf(nth)
+	}
+	// the AF_PACKET source installs a filter by attaching drop-all, reading the socket until it is empty, and only then
+	// attaching the program (SetBPFAndDrain): whatever was captured before the call is gone afterwards
+	if s.drainOnFilter && spec.FilterType != packets.FilterTypeNone {
+		s.mu.Lock()
+		now := time.Now()
+		for len(s.queue) > 0 && !s.queue[0].at.After(now) {
+			s.queue = s.queue[1:]
+			s.drained++
+		}
+		s.mu.Unlock()
+	}
 	if err, _ := s.faults.hit("SetPacketFilter"); err != nil {
 		return err
 	}
